@@ -20,6 +20,8 @@ def units(tier, seed):
     for u in us:
         u["seed"], u["tier"] = seed, tier
     us += bscope.units(tier, seed)
+    for i in range(5):
+        us.append({"kind": "front-sources", "stream": i, "label": f"front-sources:{i}", "seed": seed, "tier": tier})
     return us
 
 
@@ -79,6 +81,11 @@ def check_case(acc, case, unit):
             off += V.width(e[2])
         ends.append(off)
     n = len(case.b)
+    # message boundaries of a stream: offsets at which a root event is emitted, and the end
+    boundaries = {n}
+    for i, e in enumerate(whole):
+        if e[0] == "E" and e[1] == "" and e[3] == "...":
+            boundaries.add(ends[i])
 
     def lookahead(evs, pl, ex, cut, d):
         o = 0
@@ -119,8 +126,15 @@ def check_case(acc, case, unit):
         complete = sum(1 for i, e in enumerate(whole) if e[0] == "E" and e[3] != "..." and ends[i] <= cut)
         if k == "Depleted" and nprim != complete:
             acc.violation({"clause": "complete-fields-before-depleted", "root": rc, "sign": "fewer" if nprim < complete else "more"}, d, f"cut {cut} of {n}: {nprim} fields emitted, {complete} are complete in the prefix", size=cut)
-        if k == "Done" and case.root != "CommandResponseStream":
+        if k == "Done" and (case.root != "CommandResponseStream" or cut not in boundaries):
             acc.violation({"clause": "prefix-accepted", "root": rc}, d, f"a proper prefix ({cut} of {n}) was accepted", size=cut)
+        # exactly the events that need no further byte: everything before the first field that ends behind the cut
+        j = next((i for i, e in enumerate(whole) if e[0] == "E" and e[3] != "..." and ends[i] > cut), len(whole))
+        exp = whole[:j]
+        if case.root == "CommandResponseStream" and cut in boundaries and exp and exp[-1][1] == "" and exp[-1][3] == "...":
+            exp = exp[:-1]  # the root event of the next message is withheld when the input ends at a boundary
+        if k in ("Depleted", "Done") and evs != exp:
+            acc.violation({"clause": "events-of-prefix", "root": rc, "sign": "fewer" if len(evs) < len(exp) else "more"}, d, f"cut {cut} of {n}: {len(evs)} events emitted, {len(exp)} events need no byte behind the cut (next expected: {exp[len(evs)][:3] if len(evs) < len(exp) else None})", size=cut)
     # source-agnostic: whole input and one interior prefix, both modes
     mid = n // 2
     for inp in ((case.b, n), (case.b[:mid], mid)) if n else ((case.b, 0),):
@@ -138,7 +152,57 @@ def check_case(acc, case, unit):
                     acc.violation({"clause": "source-dependent", "root": rc, "source": name, "mode": "strict" if strict else "warn"}, dict(d0, input=inp[0].hex(), source=name, strict=strict), f"decoding from a {name} gives {r.kind} / {len(r.events)} events, from bytes {base[1]} / {len(base[0])} events", size=inp[1])
 
 
+def front_sources(acc, unit):
+    """hex / swtpm-log front-ends: every cut of the text, from every kind of byte source: same result, and
+    incremental (the fields complete in the carried prefix are emitted before the text problem surfaces)"""
+    from ..ref import text
+    from . import c15
+
+    ns = loader.load()
+    from tpmstream.io.hex import Hex
+    from tpmstream.io.swtpm_log import SWTPMLog
+
+    label, msgs, _ = c15.streams(unit["seed"])[unit["stream"]]
+    carried = b"".join(msgs)
+    for fname, front, t in (("hex", Hex, text.hex_text(carried, "lower", " ")), ("hex-dense", Hex, text.hex_text(carried, "upper", "")), ("swtpm", SWTPMLog, text.swtpm_log([("io", m, "Read" if i % 2 == 0 else "Write") for i, m in enumerate(msgs)], ("log",), per_line=8))):
+        for cut in range(len(t) + 1):
+            p = t[:cut]
+            base = None
+            for name, mk in gens(p):
+                loader.cache_clear()
+                evs, kind = [], "Done"
+                try:
+                    for e in front.marshal(tpm_type=ns.CommandResponseStream, buffer=mk(), abort_on_error=True):
+                        evs.append(impl.norm_ev(e))
+                except ValueError:
+                    kind = "ValueError"
+                except Exception as e:  # noqa: BLE001
+                    kind = impl.norm_err(e)[0]
+                acc.count("evaluations")
+                acc.count("source_runs")
+                if base is None:
+                    base = (evs, kind)
+                elif (evs, kind) != base:
+                    acc.violation({"clause": "source-dependent", "front": fname.split("-")[0], "source": name}, {"harness": "front-sources", "front": fname, "stream": unit["stream"], "cut": cut, "input": p.hex(), "source": name}, f"{fname} text cut at {cut}: from a {name}: {kind} / {len(evs)} events, from bytes: {base[1]} / {len(base[0])} events", size=cut)
+            acc.count("cuts")
+            acc.shape((fname, unit["stream"], cut))
+            # incremental: at least the events of the complete carried bytes minus one look-ahead byte
+            if fname.startswith("hex"):
+                digits = sum(1 for c in p if c not in b" \n")
+                have = carried[: digits // 2]
+                loader.cache_clear()
+                r = impl.run("CommandResponseStream", have[:-1] if have else have, strict=True)
+                if base[0][: len(r.events)] != r.events[: len(base[0])] or len(base[0]) < len(r.events) - 1:
+                    acc.violation({"clause": "front-end-not-incremental", "front": "hex"}, {"harness": "front-sources", "front": fname, "stream": unit["stream"], "cut": cut, "input": p.hex()}, f"{fname} text cut at {cut} ({digits} digits): {len(base[0])} events ({base[1]}), decoding the {len(have) - 1} complete carried bytes minus one directly gives {len(r.events)}", size=cut)
+
+
 def run_unit(unit):
+    if unit["kind"] == "front-sources":
+        acc = Acc()
+        loader.load()
+        front_sources(acc, unit)
+        acc.sample({"unit": unit["label"], "what": "every cut of the hex / swtpm text from six kinds of byte source"}, cap=2)
+        return acc
     if unit["kind"] == "bscope":
         return bscope.run_b_unit(unit, strict_own=B_STRICT, warn_props=B_WARN)
     acc = Acc()
